@@ -185,6 +185,9 @@ def run_instance(grp, inst, tier):
     t0 = time.time()
     cmd = cbmc_cmd(grp, inst, ['--trace', '--trace-hex'] if False else [])
     tmo = inst.get('timeout_s', 300) if tier == 'quick' else inst.get('timeout_thorough_s', inst.get('timeout_s', 300) * 3)
+    # the caps in the specs are sized for this machine running ONE check; the acceptance harness runs many checks at once
+    # (measured: 8x slower), so the effective cap is scaled. Hitting it is still 'inconclusive', never success.
+    tmo = int(tmo * float(os.environ.get('VP_TIMEOUT_SCALE', '5')))
     mem = inst.get('mem_gb', 8)
     env = dict(os.environ)
     if inst.get('solver') == 'cvc5': env['PATH'] = os.path.join(ENGINE, 'shim') + ':' + env['PATH']
@@ -371,7 +374,7 @@ def check(pid, tier, seed, spec, known, fixed, work, only, jobs, t_start):
     tasks = [(grp, i) for grp in built for i in grp.g['instances']]
     results = []
     # memory-aware scheduling: total budget 48 GB, at most `jobs` concurrent
-    total_mem = float(os.environ.get('VP_MEM_GB', '48')); maxjobs = jobs or int(os.environ.get('VP_JOBS', '14'))
+    total_mem = float(os.environ.get('VP_MEM_GB', '48')); maxjobs = jobs or int(os.environ.get('VP_JOBS', '10'))
     lock = threading.Condition(); state = dict(mem=0.0, n=0)
     def worker(t):
         grp, inst = t; need = inst.get('mem_gb', 8)
